@@ -126,6 +126,70 @@ def d1_raises(chk: Check, cl: List[FuncInfo]) -> None:
                      "a YAMLPathException".format(short))
 
 
+TOTAL_CALLS = ("str", "repr", "format", "type", "len", "join")
+
+
+def d1c_total_handlers(chk: Check, cl: List[FuncInfo]) -> None:
+    """A handler that converts a foreign exception runs outside any try of
+    its own: whatever it evaluates to build the message must be total.
+    Allowed: names, constants, attribute reads as message arguments,
+    str()/repr()/format()/f-strings/len()/join, the library exception's
+    constructor.  Not allowed: subscripts or slices with computed bounds,
+    arithmetic on attributes of the caught exception (``ex.pos`` is None
+    for some re.error), calls of anything else."""
+    prog = chk.prog
+    chk.rule("C15-D1c", "handlers that convert a foreign exception into a "
+             "YAMLPathException evaluate only total expressions", floor=5)
+    for fi in cl:
+        for h in walk_local(fi.node):
+            if not isinstance(h, ast.ExceptHandler):
+                continue
+            raises = [r for r in h.body if isinstance(r, ast.Raise)
+                      and r.exc is not None]
+            if not raises:
+                continue
+            exname = h.name
+            problems: List[str] = []
+            for st in h.body:
+                for n in ast.walk(st):
+                    if isinstance(n, ast.Subscript):
+                        sl = n.slice
+                        parts = [sl.lower, sl.upper, sl.step] \
+                            if isinstance(sl, ast.Slice) else [sl]
+                        if any(p is not None and
+                               not isinstance(p, ast.Constant)
+                               for p in parts):
+                            problems.append("`{}` (computed subscript)"
+                                            .format(src(n)[:40]))
+                    elif isinstance(n, ast.BinOp) and not isinstance(
+                            n.op, ast.Mod) and any(
+                                isinstance(x, ast.Attribute) and
+                                isinstance(x.value, ast.Name) and
+                                x.value.id == exname
+                                for x in (n.left, n.right)):
+                        problems.append("`{}` (arithmetic on an attribute "
+                                        "of the caught exception)".format(
+                                            src(n)[:40]))
+                    elif isinstance(n, ast.Call):
+                        f = n.func
+                        nm = f.attr if isinstance(f, ast.Attribute) else (
+                            f.id if isinstance(f, ast.Name) else "?")
+                        if nm in TOTAL_CALLS or nm.endswith("Exception") or \
+                                nm in ("debug", "warning", "error"):
+                            continue
+                        problems.append("call `{}`".format(src(n)[:40]))
+            text = "except {} in {}".format(
+                src(h.type) if h.type is not None else "<all>", fi.short)
+            if problems:
+                chk.fail("C15-D1c", fi, h, text,
+                         "the converting handler evaluates {}: a failure "
+                         "there leaves the query as a foreign exception"
+                         .format("; ".join(sorted(set(problems))[:3])))
+            else:
+                chk.ok("C15-D1c", fi, h, text, "message built from total "
+                       "expressions only")
+
+
 # ---------------------------------------------------------------- D2 ------
 def _local_proof_factory(prog: Program, site: partial.Site, need_lower: bool):
     def proof(caller: FuncInfo, call: ast.Call,
@@ -700,6 +764,7 @@ def run(chk: Check) -> None:
     # that (a COLLECTOR with text attributes reaches NotImplementedError)
     from rules.c08 import d5_rearm
     d5_rearm(chk, "C15-D1b")
+    d1c_total_handlers(chk, cl)
     d2_partial(chk, cl)
     d2_types(chk, cl)
     chk.notes.append("closure: {} functions".format(len(cl)))
